@@ -41,7 +41,7 @@ def info(tier):
         "required_cells": [f"family:{f}" for f in NG.FAMILIES] + ["sense:min", "sense:max", "method:auto", "method:SLSQP",
                                                                    "method:trust-constr", "method:L-BFGS-B", "method:BFGS",
                                                                    "wiring:fun", "wiring:jac", "wiring:hess", "wiring:cfun", "wiring:cjac",
-                                                                   "wiring:bounds", "wiring:x0", "x0:default", "x0:explicit", "end-to-end"],
+                                                                   "wiring:bounds", "wiring:x0", "x0:default", "x0:explicit", "end-to-end", "re-solve"],
         "assumptions": [
             "SciPy's solvers are trusted; only optyx's use of them is judged",
             "end-to-end verdicts only where raw SciPy with reference callables itself converges to the manufactured optimum (else non-comparable)",
@@ -273,6 +273,16 @@ def run_problem(prob, method, x0mode, rec, rng, seams):
     if fo - fstar > tol or np.linalg.norm(xo - xstar) > 1e-3 * (1 + np.linalg.norm(xstar)) + 10 * np.linalg.norm(raw.x - xstar):
         bad("end-to-end:optyx-optimum-differs-from-raw-scipy", f_optyx=fo, f_raw=float(raw.fun), fstar=fstar, x_optyx=xo.tolist(), x_raw=raw.x.tolist())
         return
+    # the same problem object solved again (cached callables): deterministic solvers must reproduce the first result
+    try:
+        with warnings.catch_warnings():
+            warnings.simplefilter("ignore")
+            sol_b = P.solve(method=method, **kwargs)
+        rec.cmp(1, "re-solve")
+        if sol_b.status != sol.status or abs((sol_b.objective_value or 0.0) - (sol.objective_value or 0.0)) > 1e-9 * (1 + abs(sol.objective_value or 0.0)):
+            bad("re-solve-of-the-same-problem-differs", first=[sol.status.value, sol.objective_value], second=[sol_b.status.value, sol_b.objective_value])
+    except Exception as ex:
+        bad("re-solve-raises:" + type(ex).__name__, error=repr(ex)[:200])
     # reported objective is in the user's orientation
     want_obj = fo if prob["sense"] == "min" else -fo
     if sol.objective_value is None or abs(sol.objective_value - want_obj) > 1e-7 * (1 + abs(want_obj)):
